@@ -84,6 +84,9 @@ def quick_deviations():
     # re-entrant wall: the outermost SOL surfaces of the outer lower leg meet the baffle first
     out.append(mk("lsn", False, wall="W7", opt=dict(nx_sol=3, psinorm_sol=1.3), tags=["wall"]))
     out.append(mk("usn", False, wall="W7m", opt=dict(nx_sol=3, psinorm_sol=1.3), tags=["wall"]))
+    # tight perpendicular-following tolerances (every piece of a radial line must honour them)
+    out.append(mk("lsn", True, opt=dict(follow_perpendicular_rtol=2e-11, follow_perpendicular_atol=1e-11), tags=["fp"]))
+    out.append(mk("ldn", True, opt=dict(follow_perpendicular_rtol=2e-11, follow_perpendicular_atol=1e-11), tags=["fp"]))
     # a grid written after "geometry(), redistributePoints(), geometry()" on one mesh (the GUI's
     # write - regrid - write loop) and one after a plain redistribution
     out.append(mk("lsn", False, geometry_first=True, tags=["history"],
